@@ -373,6 +373,33 @@ fn main()
         }
     }
 
+    // wide gates (4 and 5 qubits: tensor products, controlled, composites, loops) with every operand
+    // order (sampled in quick), always including the tuples whose endpoints look like a run of
+    // consecutive increasing qubits while the interior operands are out of order (e.g. [1,3,2,4])
+    for k in 4..=5usize
+    {
+        let mut terms: Vec<String> = if k == 4
+            { vec!["Kron CX Kron H T".into(), "C C CX".into(), "Kron Kron S CY X".into()] }
+            else { vec!["Kron Swap Kron CX S".into(), "C Kron CX Kron H T".into()] };
+        for _ in 0..(if th { 6 } else { 2 }) { terms.push(gate::gen_term(k, 2, &mut rng)); }
+        for term in terms
+        {
+            r_matrix(&mut out, &term);
+            leading(&mut out, &term, k, false, &mut rng);
+            for n in k..=(if th { 6 } else { 5 })
+            {
+                let all = tuples(n, k);
+                let tricky: Vec<Vec<usize>> = all.iter().filter(|b| {
+                    let (f, l) = (b[0], b[k - 1]);
+                    l > f && l - f + 1 == k && b.windows(2).any(|w| w[1] != w[0] + 1)
+                }).cloned().collect();
+                let mut tups = if th && n <= 5 { all } else { sample(all, 10, &mut rng) };
+                for t in sample(tricky, if th { 24 } else { 4 }, &mut rng) { if !tups.contains(&t) { tups.push(t); } }
+                for bits in tups { placed(&mut out, &term, n, &bits, 3, &mut rng); }
+            }
+        }
+    }
+
     malformed(&mut out, &mut rng);
     let n = out.finish();
     eprintln!("c04: {} cases", n);
